@@ -10,7 +10,7 @@ open BM
 
 variable {V : Type}
 
-theorem len_eq' (c : Codec V) (hu : c.mult = 1) (d : Bits) : len c d = (items c d).length := by
+theorem len_eq' (c : Codec V) (d : Bits) : len c d = (items c d).length := by
   simp [len, items, chunks_len, w_eq_L c hu]
 
 theorem mapM_cons_ok_inv {α β} (f : α → Except Err β) (a : α) (l : List α) (rs : List β)
@@ -32,7 +32,7 @@ theorem mapM_nil_ok_inv {α β} (f : α → Except Err β) (rs : List β) (h : (
   exact h.symm
 
 /-- From "the operator succeeds on every item and every result fits" to the per-item build results. -/
-theorem build_forall₂ {α W} (cr : Codec V) (hur : cr.mult = 1) (hwfr : cr.WF) (f : W → Except Err V) (g : α → W)
+theorem build_forall₂ {α W} (cr : Codec V) (hwfr : cr.WF) (f : W → Except Err V) (g : α → W)
     (l : List α) (rs : List V) (outs : List Bits) (hf : (l.map g).mapM f = .ok rs) (henc : rs.mapM cr.enc = .ok outs) :
     List.Forall₂ (fun a o => buildResult cr (f (g a)) = .ok o) l outs := by
   induction l generalizing rs outs with
@@ -48,15 +48,15 @@ theorem build_forall₂ {α W} (cr : Codec V) (hur : cr.mult = 1) (hwfr : cr.WF)
     obtain ⟨o, outs', h3, h4, rfl⟩ := mapM_cons_ok_inv cr.enc r rs' outs henc
     refine List.Forall₂.cons ?_ (ih rs' outs' h2 h4)
     simp only [buildResult, h1]
-    exact (createElement_ok cr hur hwfr r o h3).1
+    exact (createElement_ok cr hwfr r o h3).1
 
 theorem drop_take_succ {α} (l : List α) (j m : Nat) (hj : j < l.length) :
     (l.drop j).take (m + 1) = l[j] :: (l.drop (j + 1)).take m := by
   rw [List.drop_eq_getElem_cons hj, List.take_succ_cons]
 
 /-- The element loop on items `j … j+m-1` when every build succeeds. -/
-theorem opLoop_ok (c cr : Codec V) (hu : c.mult = 1) (f : V → Except Err V) (bs : List Bits) (t : Bits)
-    (hbs : ∀ b ∈ bs, b.length = c.L) (m j : Nat) (hj : j + m ≤ bs.length) (outs : List Bits)
+theorem opLoop_ok (c cr : Codec V) (f : V → Except Err V) (bs : List Bits) (t : Bits)
+    (hbs : ∀ b ∈ bs, b.length = c.w) (m j : Nat) (hj : j + m ≤ bs.length) (outs : List Bits)
     (h : List.Forall₂ (fun b o => buildResult cr (f (c.dec b)) = .ok o) ((bs.drop j).take m) outs) (nd : Bits) (fails : Nat) :
     opLoop c cr f (bs.flatten ++ t) (List.range' j m) nd fails = .ok (nd ++ outs.flatten, fails) := by
   induction m generalizing j outs nd with
@@ -72,14 +72,14 @@ theorem opLoop_ok (c cr : Codec V) (hu : c.mult = 1) (f : V → Except Err V) (b
       rename_i o outs'
       rw [List.range'_succ]
       unfold opLoop
-      rw [readAt_block c hu bs t hbs j hjl]
+      rw [readAt_block c bs t hbs j hjl]
       simp only [h1]
       rw [ih (j + 1) (by omega) outs' h2]
       simp
 
 /-- The failure counter never decreases, and increases when some item's build fails (unless the loop raises). -/
-theorem opLoop_fails (c cr : Codec V) (hu : c.mult = 1) (f : V → Except Err V) (bs : List Bits) (t : Bits)
-    (hbs : ∀ b ∈ bs, b.length = c.L) (m j : Nat) (hj : j + m ≤ bs.length) (nd : Bits) (fails : Nat) :
+theorem opLoop_fails (c cr : Codec V) (f : V → Except Err V) (bs : List Bits) (t : Bits)
+    (hbs : ∀ b ∈ bs, b.length = c.w) (m j : Nat) (hj : j + m ≤ bs.length) (nd : Bits) (fails : Nat) :
     match opLoop c cr f (bs.flatten ++ t) (List.range' j m) nd fails with
     | .error _ => True
     | .ok (_, fails') => fails ≤ fails' ∧
@@ -90,7 +90,7 @@ theorem opLoop_fails (c cr : Codec V) (hu : c.mult = 1) (f : V → Except Err V)
     have hjl : j < bs.length := by omega
     rw [List.range'_succ]
     unfold opLoop
-    rw [readAt_block c hu bs t hbs j hjl]
+    rw [readAt_block c bs t hbs j hjl]
     simp only
     rw [drop_take_succ bs j m hjl]
     cases hb : buildResult cr (f (c.dec bs[j])) with
@@ -126,9 +126,9 @@ theorem opLoop_fails (c cr : Codec V) (hu : c.mult = 1) (f : V → Except Err V)
         trivial
 
 /-- The element loop between two Arrays on items `j … j+m-1` when every build succeeds. -/
-theorem opLoop2_ok (c1 c2 cr : Codec V) (hu1 : c1.mult = 1) (hu2 : c2.mult = 1) (f : V → V → Except Err V)
-    (bs1 : List Bits) (t1 : Bits) (hbs1 : ∀ b ∈ bs1, b.length = c1.L)
-    (bs2 : List Bits) (t2 : Bits) (hbs2 : ∀ b ∈ bs2, b.length = c2.L)
+theorem opLoop2_ok (c1 c2 cr : Codec V) (f : V → V → Except Err V)
+    (bs1 : List Bits) (t1 : Bits) (hbs1 : ∀ b ∈ bs1, b.length = c1.w)
+    (bs2 : List Bits) (t2 : Bits) (hbs2 : ∀ b ∈ bs2, b.length = c2.w)
     (m j : Nat) (hj1 : j + m ≤ bs1.length) (hj2 : j + m ≤ bs2.length) (outs : List Bits)
     (h : List.Forall₂ (fun (p : Bits × Bits) o => buildResult cr (f (c1.dec p.1) (c2.dec p.2)) = .ok o)
           (((bs1.drop j).take m).zip ((bs2.drop j).take m)) outs) (nd : Bits) (fails : Nat) :
@@ -148,7 +148,7 @@ theorem opLoop2_ok (c1 c2 cr : Codec V) (hu1 : c1.mult = 1) (hu2 : c2.mult = 1) 
       rename_i o outs'
       rw [List.range'_succ]
       unfold opLoop2
-      rw [readAt_block c1 hu1 bs1 t1 hbs1 j hjl1, readAt_block c2 hu2 bs2 t2 hbs2 j hjl2]
+      rw [readAt_block c1 bs1 t1 hbs1 j hjl1, readAt_block c2 bs2 t2 hbs2 j hjl2]
       simp only at h1
       simp only [h1]
       rw [ih (j + 1) (by omega) (by omega) outs' h2]
@@ -238,32 +238,32 @@ theorem map_blocks_length (L : Nat) (op : Bool → Bool → Bool) (v : Bits) (hv
   simp [hbs x hx, hv]
 
 /-- `_apply_bitwise_op_to_all_elements_inplace` on a buffer in block form. -/
-theorem bitwiseInplace_blocks (c : Codec V) (hu : c.mult = 1) (hL : 0 < c.L) (op : Bool → Bool → Bool) (v : Bits)
-    (hv : v.length = c.L) (bs : List Bits) (t : Bits) (hbs : ∀ b ∈ bs, b.length = c.L) (ht : t.length < c.L) :
+theorem bitwiseInplace_blocks (c : Codec V) (hL : 0 < c.w) (op : Bool → Bool → Bool) (v : Bits)
+    (hv : v.length = c.w) (bs : List Bits) (t : Bits) (hbs : ∀ b ∈ bs, b.length = c.w) (ht : t.length < c.w) :
     bitwiseInplace c op (bs.flatten ++ t) v = ⟨(bs.map fun b => List.zipWith op b v).flatten ++ t, .ok ()⟩ := by
   unfold bitwiseInplace
-  rw [if_neg (not_not.mpr hv), (view_of_blocks c hu hL bs t hbs ht).2.2.2]
+  rw [if_neg (not_not.mpr hv), (view_of_blocks c hL bs t hbs ht).2.2.2]
   unfold Py.rangeList
-  rw [rangeLen_exact bs.length c.L hL, List.foldl_map]
-  rw [bitwise_fold c.L op v hv bs t hbs bs.length (Nat.le_refl _)]
+  rw [rangeLen_exact bs.length c.w hL, List.foldl_map]
+  rw [bitwise_fold c.w op v hv bs t hbs bs.length (Nat.le_refl _)]
   simp
 
 /-- `self[:]` keeps the items and drops the trailing bits. -/
-theorem getSlice_all_blocks (c : Codec V) (hu : c.mult = 1) (hL : 0 < c.L) (bs : List Bits) (t : Bits)
-    (hbs : ∀ b ∈ bs, b.length = c.L) (ht : t.length < c.L) :
+theorem getSlice_all_blocks (c : Codec V) (hL : 0 < c.w) (bs : List Bits) (t : Bits)
+    (hbs : ∀ b ∈ bs, b.length = c.w) (ht : t.length < c.w) :
     getSlice c (bs.flatten ++ t) none none none = .ok bs.flatten := by
   unfold getSlice
   simp only [Option.getD_none]
   have h1 : ¬ ((1 : Int) = 0) := by omega
   rw [if_neg h1, if_neg (by simp)]
-  rw [(view_of_blocks c hu hL bs t hbs ht).2.2.2, C01.sliceIndices_none_none_pos 1 (by omega)]
+  rw [(view_of_blocks c hL bs t hbs ht).2.2.2, C01.sliceIndices_none_none_pos 1 (by omega)]
   simp only
-  have e1 : (0 : Int) * (c.L : Int) = ((0 : Nat) : Int) := by simp
-  have e2 : (bs.length : Int) * (c.L : Int) = ((bs.length * c.L : Nat) : Int) := by push_cast; rfl
-  have hlen : (bs.flatten ++ t).length = bs.length * c.L + t.length := by
-    rw [List.length_append, blocks_flatten_length c.L bs hbs]
+  have e1 : (0 : Int) * (c.w : Int) = ((0 : Nat) : Int) := by simp
+  have e2 : (bs.length : Int) * (c.w : Int) = ((bs.length * c.w : Nat) : Int) := by push_cast; rfl
+  have hlen : (bs.flatten ++ t).length = bs.length * c.w + t.length := by
+    rw [List.length_append, blocks_flatten_length c.w bs hbs]
   rw [e1, e2, bslice_nat _ _ _ (by omega) (by omega)]
   simp only [List.drop_zero, Nat.sub_zero]
-  rw [take_blocks c.L bs t hbs bs.length (Nat.le_refl _), List.take_length]
+  rw [take_blocks c.w bs t hbs bs.length (Nat.le_refl _), List.take_length]
 
 end BM.C14
